@@ -22,7 +22,7 @@ for d in sorted(glob.glob(os.path.join(V, 'seeded', '*'))):
     rows.append('| %s | %s | %s | %s | %s | %s |' % (
         os.path.basename(d), m['property'], origin, (m.get('needs') or '').replace('|', '/')[:150],
         ('yes' if caught else 'NO') + (' (no-failing-input-found)' if nofail else ''),
-        ('`./check %s quick`: `%s`' % (by, sig)) if caught else (m.get('why_missed') or '')))
+        (('`./check %s quick`: `%s`' % (by, sig)) if caught else (m.get('why_missed') or '')) + (' — ' + m['note'] if m.get('note') else '')))
 seeds = ('| seeded change | breaks | origin | needs, to manifest | caught | by check / violation signature |\n|---|---|---|---|---|---|\n'
          + '\n'.join(rows) + '\n')
 k = json.load(open(os.path.join(V, 'known_findings.json')))['findings']
